@@ -124,13 +124,14 @@ fn world(k: usize, scale: usize, thorough: bool, extra: &[u128]) -> (Vec<Act>, P
             Act::Price(8, 8),
             Act::Price(12, 12),
             Act::Price(15, 15),
+            Act::Price(11, 13),
             Act::Adv(1),
             Act::Adv(3600),
             Act::Fees,
             Act::Probe,
         ];
         if thorough {
-            acts.extend([Act::Price(11, 13), Act::Inc(3, 40_000, 300_000), Act::Dec(3, 1, 0), Act::Liq(3), Act::Inc(1, e(0, 1_000, 60_000), e(1, 100_000, 3_000_000))]);
+            acts.extend([Act::Price(7, 9), Act::Inc(3, 40_000, 300_000), Act::Dec(3, 1, 0), Act::Liq(3), Act::Inc(1, e(0, 1_000, 60_000), e(1, 100_000, 3_000_000))]);
         }
         let probes = Probes {
             swap_amounts: vec![0, 1, 10, 1_000, 20_000, 1_000_000, 100_000_000, e(2, 2, 5_000_000)],
@@ -166,13 +167,14 @@ fn world(k: usize, scale: usize, thorough: bool, extra: &[u128]) -> (Vec<Act>, P
             Act::Price(6_000, 6_000),
             Act::Price(9_000, 9_000),
             Act::Price(12_000, 12_000),
+            Act::Price(8_900, 9_100),
             Act::Adv(1),
             Act::Adv(3600),
             Act::Fees,
             Act::Probe,
         ];
         if thorough {
-            acts.extend([Act::Price(8_900, 9_100), Act::Inc(3, 3, 10_000), Act::Dec(3, 0, 0), Act::Liq(3)]);
+            acts.extend([Act::Price(5_900, 6_100), Act::Inc(3, 3, 10_000), Act::Dec(3, 0, 0), Act::Liq(3)]);
         }
         let probes = Probes {
             swap_amounts: vec![0, 1, 2, 10, 111, 100_000, 5_000_000],
